@@ -34,7 +34,10 @@ const REVOKED: [u32; 4] = [3, 99, 65_536, 70_000];
 /// Indices the scenarios probe that are NOT set in the issuer's own bitmap service.
 const FREE: [u32; 4] = [0, 5, 65_535, 1_000_000];
 const NEIGHBOURS: [u32; 8] = [2, 4, 98, 100, 65_535, 65_537, 69_999, 70_001];
-const DOC_VARIANTS: u8 = 8;
+const DOC_VARIANTS: u8 = 11;
+/// DIDs that are string-prefix related to ISSUER without being equal to it: other DIDs.
+const ISSUER_SHORTER: &str = "did:example:issue";
+const ISSUER_LONGER: &str = "did:example:issuer2";
 const ISSUER_FORMS: u8 = 14;
 
 fn k1() -> Key {
@@ -80,7 +83,10 @@ fn issuer_doc(did: &str, key1: &Key, with_bitmap: bool) -> CoreDocument {
 /// 1 a bitmap service `did:example:registry#rev` (same fragment, another DID, disagreeing at every probed index) listed BEFORE the own one;
 /// 2 the same listed AFTER; 3 a LinkedDomains service `did:example:registry#rev` listed before; 4 the own bitmap service ABSENT, only
 /// `did:example:registry#rev`; 5 an empty bitmap `did:example:registry#rev` before; 6 the disagreeing bitmap under `did:web:<same id>#rev`
-/// before; 7 a bitmap service `did:example:registry#linked` before the own `#linked` (LinkedDomains).
+/// before; 7 a bitmap service `did:example:registry#linked` before the own `#linked` (LinkedDomains);
+/// 8 the disagreeing bitmap under `did:example:issue#rev` (a DID that is a proper string prefix of the document's) before the own one;
+/// 9 the same under `did:example:issuer2#rev` (the document's DID is a proper prefix of it); 10 the own bitmap service ABSENT, only
+/// `did:example:issue#rev`.
 /// Service ids with a DID other than the document's are legal in a DID document; they are placed through the JSON form.
 fn issuer_doc_variant(did: &str, key1: &Key, variant: u8) -> CoreDocument {
   let own = bitmap_service(&format!("{}#rev", did), &REVOKED);
@@ -95,6 +101,9 @@ fn issuer_doc_variant(did: &str, key1: &Key, variant: u8) -> CoreDocument {
     5 => vec![bitmap_service(&reg_rev, &[]), own, linked],
     6 => vec![complement_service(&format!("{}#rev", ISSUER_WEB)), own, linked],
     7 => vec![complement_service(&format!("{}#linked", REGISTRY)), own, linked],
+    8 => vec![complement_service(&format!("{}#rev", ISSUER_SHORTER)), own, linked],
+    9 => vec![complement_service(&format!("{}#rev", ISSUER_LONGER)), own, linked],
+    10 => vec![complement_service(&format!("{}#rev", ISSUER_SHORTER)), linked],
     _ => vec![linked],
   };
   let j = json!({
@@ -147,7 +156,7 @@ struct Plan {
   expiry_in_vc_only: bool, // carry the expiration as vc.expirationDate without an exp claim (a form foreign issuers produce)
   wall_clock: bool,        // leave both date bounds unset: the library then uses the current time
   iat: Option<i64>,        // an additional `iat` claim at nbf + this many seconds (nbf stays the issuance date)
-  doc_variant: u8,         // service list of the issuer document, see issuer_doc_variant; only 4 (own bitmap service absent) changes a verdict
+  doc_variant: u8,         // service list of the issuer document, see issuer_doc_variant; only 4 and 10 (own bitmap service absent) change a verdict
 }
 
 const BOUND_ISS: i64 = 1_700_000_000;
@@ -181,7 +190,7 @@ impl Plan {
       expiry_in_vc_only: false,
       wall_clock: false,
       iat: *rng.pick(&[None, None, Some(-2_000_000_000i64), Some(-1), Some(3), Some(2_000_000_000)]),
-      doc_variant: *rng.pick(&[0u8, 0, 0, 0, 0, 1, 1, 2, 3, 5, 6, 7]),
+      doc_variant: *rng.pick(&[0u8, 0, 0, 0, 0, 0, 1, 1, 2, 3, 5, 6, 7, 8, 9]),
     }
   }
 
@@ -289,7 +298,7 @@ impl Plan {
     }
     // The status is judged against the service its id names: `did:example:issuer#rev` of the issuer document. Other services of the
     // document (whatever their fragment, type or position) do not take part; if that service is absent nothing shows the index unset.
-    let own_service_present = self.doc_variant != 4;
+    let own_service_present = !matches!(self.doc_variant, 4 | 10);
     let status_ok = if self.status_mode == 2 {
       true
     } else {
@@ -621,7 +630,7 @@ fn mutate_one(rng: &mut Rng, p: &mut Plan, which: u64) {
     }
     18 => {
       // the service the status names is absent from the issuer document; a bitmap service with the same fragment under another DID is listed
-      p.doc_variant = 4;
+      p.doc_variant = *rng.pick(&[4u8, 4, 10]);
       if !matches!(p.status, 1 | 2 | 9 | 10) || rng.chance(1, 3) {
         let st = *rng.pick(&[1u8, 2, 9, 10]);
         p.set_status(rng, st);
@@ -630,7 +639,7 @@ fn mutate_one(rng: &mut Rng, p: &mut Plan, which: u64) {
     19 => {
       // a bitmap status evaluated against a document that lists further services sharing a fragment with the named one
       // (a legal variation, not a falsification)
-      p.doc_variant = *rng.pick(&[1u8, 1, 2, 3, 5, 6, 7]);
+      p.doc_variant = *rng.pick(&[1u8, 1, 2, 3, 5, 6, 7, 8, 9]);
       if p.status == 0 {
         let st = *rng.pick(&[1u8, 9, 10]);
         p.set_status(rng, st);
@@ -642,6 +651,85 @@ fn mutate_one(rng: &mut Rng, p: &mut Plan, which: u64) {
       p.status_index = *rng.pick(&NEIGHBOURS);
     }
   }
+}
+
+
+/// (document DID, DID of the foreign namesake method). Except for the last two rows the two DIDs are related as proper string
+/// prefix / extension (one character or one segment); they are different DIDs in every row.
+const NAMESAKE_PAIRS: [(&str, &str); 9] = [
+  ("did:example:issuer", "did:example:issue"),
+  ("did:example:issuer", "did:example:issuer2"),
+  ("did:example:issuer1", "did:example:issuer"),
+  ("did:example:issue", "did:example:issuer"),
+  ("did:example:issuer", "did:example:issuer:sub"),
+  ("did:example:issuer:sub", "did:example:issuer"),
+  ("did:example:issuer", "did:example:i"),
+  ("did:example:issuer", "did:web:issuer"),
+  ("did:example:issuer", "did:example:foreign"),
+];
+const NAMESAKE_LOCS: u8 = 7;
+const NAMESAKE_SCOPES: u8 = 7;
+
+/// One row of the namesake table: an issuer document with id D that carries a verification method `F#frag` of a FOREIGN DID F
+/// next to / instead of its own `D#frag`; the token (issuer D) names `D#frag` through the kid or the configured method id.
+#[derive(Clone, Copy, Debug)]
+struct Namesake {
+  pair: usize,
+  place: u8,  // 0 foreign listed before the genuine method, 1 after it, 2 instead of it (no method D#frag at all)
+  loc_f: u8,  // where the foreign method lives, see namesake_in_scope
+  loc_g: u8,  // where the genuine method lives
+  scope: u8,  // Plan::scope numbering
+  ident: u8,  // 0 kid = D#frag; 1 configured method id D#frag next to the same kid; 2 configured method id, no kid; 3 configured method id, kid = F#frag
+  signer: u8, // 0 key of the genuine method, 1 key of the foreign method, 2 a stranger
+  entry: u8,  // 0 validate, 1 verify_signature over a one-element slice of trusted issuers
+}
+
+/// loc: 0 verificationMethod only; 1 verificationMethod + referenced from assertionMethod; 2..=6 embedded in assertionMethod,
+/// authentication, capabilityInvocation, keyAgreement, capabilityDelegation. scope: Plan::scope numbering.
+fn namesake_in_scope(loc: u8, scope: u8) -> bool {
+  match scope {
+    0 => true,
+    1 => loc <= 1,
+    2 => loc == 1 || loc == 2,
+    3 => loc == 3,
+    5 => loc == 4,
+    4 => loc == 5,
+    6 => loc == 6,
+    _ => false,
+  }
+}
+
+fn namesake_doc(n: &Namesake, frag: &str) -> CoreDocument {
+  let (d, f) = NAMESAKE_PAIRS[n.pair];
+  let genuine = (format!("{}#{}", d, frag), d, k1(), n.loc_g);
+  let foreign = (format!("{}#{}", f, frag), f, kf(), n.loc_f);
+  let order: Vec<&(String, &str, Key, u8)> = match n.place {
+    0 => vec![&foreign, &genuine],
+    1 => vec![&genuine, &foreign],
+    _ => vec![&foreign],
+  };
+  let mut lists: [Vec<Value>; 6] = Default::default(); // verificationMethod, assertionMethod, authentication, capabilityInvocation, keyAgreement, capabilityDelegation
+  for (id, did, key, loc) in order {
+    let m = method_json(id, did, key);
+    match *loc {
+      0 => lists[0].push(m),
+      1 => {
+        lists[0].push(m);
+        lists[1].push(json!(id));
+      }
+      l => lists[(l - 1) as usize].push(m),
+    }
+  }
+  // an unrelated method of the document's own DID, so that no list the lookup walks is trivially empty
+  lists[0].push(method_json(&format!("{}#unrelated", d), d, &k2()));
+  let mut j = Map::new();
+  j.insert("id".into(), json!(d));
+  for (name, l) in ["verificationMethod", "assertionMethod", "authentication", "capabilityInvocation", "keyAgreement", "capabilityDelegation"].iter().zip(lists.into_iter()) {
+    if !l.is_empty() {
+      j.insert((*name).into(), Value::Array(l));
+    }
+  }
+  serde_json::from_value(Value::Object(j)).expect("harness namesake document")
 }
 
 struct Cx {
@@ -888,6 +976,157 @@ impl Cx {
       }
     }
   }
+
+  /// Foreign-DID namesake methods: the method the kid / configured method id selects must be a method of the document's own DID.
+  /// Accept <=> the document has a method `D#frag` of its own DID within the configured scope and the JWS verifies under that method's key;
+  /// a method `F#frag` of another DID F (however similar the two DID strings are) never takes its place.
+  fn namesake(&mut self, rng: &mut Rng, n: &Namesake) {
+    self.rep.eval();
+    self.rep.inc("namesake_rows");
+    let (d, f) = NAMESAKE_PAIRS[n.pair];
+    let frag = *rng.pick(&["k1", "key-1"]);
+    let doc = namesake_doc(n, frag);
+    let own_id = format!("{}#{}", d, frag);
+    let spec = CredSpec::minimal(d, Some("did:example:subject"), BOUND_ISS - 10);
+    let claims = Value::Object(spec.claims_json(&Map::new()));
+    let mut h = Map::new();
+    h.insert("alg".into(), json!("EdDSA"));
+    h.insert("typ".into(), json!("JWT"));
+    match n.ident {
+      0 | 1 => {
+        h.insert("kid".into(), json!(own_id));
+      }
+      3 => {
+        h.insert("kid".into(), json!(format!("{}#{}", f, frag)));
+      }
+      _ => {}
+    }
+    let header = Value::Object(h);
+    let signer = match n.signer {
+      0 => k1(),
+      1 => kf(),
+      _ => k_stranger(),
+    };
+    let token = jwt(&header, &claims, &signer);
+    let mut vo = JwsVerificationOptions::new();
+    let scope_value = match n.scope {
+      1 => Some(MethodScope::VerificationMethod),
+      2 => Some(MethodScope::VerificationRelationship(MethodRelationship::AssertionMethod)),
+      3 => Some(MethodScope::VerificationRelationship(MethodRelationship::Authentication)),
+      4 => Some(MethodScope::VerificationRelationship(MethodRelationship::KeyAgreement)),
+      5 => Some(MethodScope::VerificationRelationship(MethodRelationship::CapabilityInvocation)),
+      6 => Some(MethodScope::VerificationRelationship(MethodRelationship::CapabilityDelegation)),
+      _ => None,
+    };
+    if let Some(sc) = scope_value {
+      vo = vo.method_scope(sc);
+    }
+    if n.ident != 0 {
+      vo = vo.method_id(DIDUrl::parse(&own_id).unwrap());
+    }
+    // the model
+    let genuine_present = n.place != 2;
+    let genuine_usable = genuine_present && namesake_in_scope(n.loc_g, n.scope);
+    let mut falsified: Vec<&'static str> = Vec::new();
+    if !genuine_present {
+      falsified.push("S2-method-present");
+    } else if !genuine_usable {
+      falsified.push("S3-scope");
+    }
+    if n.signer != 0 {
+      falsified.push("S1-signature");
+    }
+    let expect_accept = falsified.is_empty();
+    let prefix_related = d.starts_with(f) || f.starts_with(d);
+    if n.signer == 1 && namesake_in_scope(n.loc_f, n.scope) {
+      // the token verifies under the foreign method, which the scope would admit: only 'method DID equals the document id' stands in the way
+      self.rep.inc("namesake_foreign_signed_in_scope");
+      if prefix_related {
+        self.rep.inc("namesake_foreign_signed_in_scope_prefix_related");
+      }
+    }
+    if expect_accept && namesake_in_scope(n.loc_f, n.scope) && prefix_related {
+      self.rep.inc("namesake_genuine_next_to_prefix_related");
+    }
+    let signed_by = ["genuine-method-key", "foreign-method-key", "stranger"][n.signer as usize];
+    let case = json!({
+      "namesake": format!("{:?}", n), "document_id": d, "foreign_did": f, "issuer_document": serde_json::to_value(&doc).unwrap_or(Value::Null),
+      "token": token, "method_named": own_id, "configured_method_id": n.ident != 0, "scope": n.scope, "signed_by": signed_by,
+      "falsified": falsified, "entry": if n.entry == 0 { "validate" } else { "verify_signature" },
+    });
+    let rel = if d.starts_with(f) { "foreign-is-prefix" } else if f.starts_with(d) { "foreign-is-extension" } else { "unrelated" };
+    self.rep.distinct("nontrivial", &format!("namesake|{}|{}|p{}|lf{}|lg{}|sc{}|id{}|sg{}|e{}", n.pair, rel, n.place, n.loc_f, n.loc_g, n.scope, n.ident, n.signer, n.entry));
+    let validator = JwtCredentialValidator::with_signature_verifier(EdDSAJwsVerifier::default());
+    let jwt_obj = Jwt::new(token.clone());
+    let res = catch(|| {
+      let r = if n.entry == 0 {
+        let o = JwtCredentialValidationOptions::new()
+          .latest_issuance_date(Timestamp::from_unix(BOUND_ISS).unwrap())
+          .earliest_expiry_date(Timestamp::from_unix(BOUND_EXP).unwrap())
+          .verification_options(vo.clone());
+        validator.validate::<_, Object>(&jwt_obj, &doc, &o, FailFast::AllErrors).map_err(|e| e.validation_errors.iter().map(|e| <&'static str>::from(e)).collect::<Vec<_>>())
+      } else {
+        validator.verify_signature::<_, Object>(&jwt_obj, std::slice::from_ref(&doc), &vo).map_err(|e| vec![<&'static str>::from(&e)])
+      };
+      r.map(|dec| dec.credential)
+    });
+    match res {
+      Err(pn) => self.rep.violation(&format!("validate-panic@{}", pn.file_only()), &format!("{} at {}", pn.msg, pn.loc()), case),
+      Ok(Ok(cred)) => {
+        self.rep.inc("accepted");
+        self.rep.inc("namesake_accepted");
+        if !expect_accept {
+          let sig = if n.signer == 1 {
+            "accepted-although-false:method-did-differs-from-document"
+          } else if n.signer == 2 {
+            "accepted-although-false:S1-signature"
+          } else {
+            "accepted-although-false:own-method-absent-or-out-of-scope"
+          };
+          self.rep.violation(
+            sig,
+            &format!("issuer document {} lists a method {}#{} of another DID ({:?}); a token naming {} signed by the {} was accepted although {:?} false", d, f, frag, n, own_id, signed_by, falsified),
+            case,
+          );
+        } else if cred.issuer.url().as_str() != d {
+          self.rep.violation("returned-credential-differs", "issuer of returned credential differs", case);
+        }
+      }
+      Ok(Err(variants)) => {
+        self.rep.inc("rejected");
+        self.rep.inc("namesake_rejected");
+        let mut case = case;
+        case["errors"] = json!(variants);
+        if expect_accept {
+          self.rep.violation(
+            "rejected-although-all-hold:foreign-did-namesake-method",
+            &format!("issuer document {} has its own method {} in scope and the token is signed with its key, but was rejected ({:?}); the document also lists {}#{} ({:?})", d, own_id, variants, f, frag, n),
+            case,
+          );
+        } else if variants.len() != 1 || !variants.iter().all(|v| s_allowed(v, &falsified)) {
+          self.rep.violation(
+            &format!("error-does-not-identify-condition:namesake:{}", falsified.join("+")),
+            &format!("errors {:?} do not identify any of the falsified conditions {:?} ({:?})", variants, falsified, n),
+            case,
+          );
+        }
+      }
+    }
+  }
+
+  fn namesake_random(&mut self, rng: &mut Rng) {
+    let n = Namesake {
+      pair: rng.usize(NAMESAKE_PAIRS.len()),
+      place: rng.below(3) as u8,
+      loc_f: rng.below(NAMESAKE_LOCS as u64) as u8,
+      loc_g: rng.below(NAMESAKE_LOCS as u64) as u8,
+      scope: rng.below(NAMESAKE_SCOPES as u64) as u8,
+      ident: rng.below(4) as u8,
+      signer: *rng.pick(&[0u8, 0, 1, 1, 1, 2]),
+      entry: rng.below(2) as u8,
+    };
+    self.namesake(rng, &n);
+  }
 }
 
 fn main() {
@@ -907,8 +1146,11 @@ fn main() {
      or a random subset of the 12 conditions through every defect variant (issuer forms include DIDs that differ from the signing \
      document's in the method name only / the id only; issuer documents may list further services that share the fragment of the \
      service the status names under another DID, before or after it, of the same or another type, or instead of it); plus \
-     verify_signature over two or three trusted issuers (incl. the same id under two DID methods), an issuer-form x status table and a \
-     document-service-list x status table. distinct = \
+     verify_signature over two or three trusted issuers (incl. the same id under two DID methods), an issuer-form x status table, a \
+     document-service-list x status table, and a namesake table: issuer documents that list a method with the fragment the token names \
+     under a FOREIGN DID (string prefix / extension of the document DID by one character or segment, or unrelated) before / after / instead \
+     of the genuine method, in verificationMethod or embedded in each relationship, x every scope x kid / configured method id x signer \
+     (genuine / foreign key) x validate / verify_signature. distinct = \
      (falsified-condition vector, method, kid form, override, scope, issuer form, status form x mode, holder mode, fail-fast, service list)",
   );
   let mut rng = args.rng(2);
@@ -948,6 +1190,9 @@ fn main() {
     }
     if i % 16 == 8 {
       cx.wall_clock_defaults(&mut rng);
+    }
+    if i % 8 == 4 {
+      cx.namesake_random(&mut rng);
     }
   }
   // exhaustive U-table (2^5 subsets) x fail-fast x status mode, all S true
@@ -1014,6 +1259,36 @@ fn main() {
         p.fail_fast = k % 2 == 0;
         cx.rep.inc("service_list_table_rows");
         cx.scenario(&mut rng, &p);
+      }
+    }
+  }
+  // namesake table: every (document DID, foreign DID) pair x placement x location x scope x signer, identification and entry point
+  // cycling; at reduced scale pair x placement with the remaining dimensions drawn at random.
+  for pair in 0..NAMESAKE_PAIRS.len() {
+    for place in 0..3u8 {
+      if !full {
+        k += 1;
+        if args.mine(k) {
+          let loc = rng.below(NAMESAKE_LOCS as u64) as u8;
+          let scope_of_loc = [1u8, 2, 2, 3, 5, 4, 6][loc as usize];
+          let n = Namesake { pair, place, loc_f: loc, loc_g: loc, scope: *rng.pick(&[0u8, scope_of_loc]), ident: rng.below(4) as u8, signer: rng.below(2) as u8, entry: rng.below(2) as u8 };
+          cx.rep.inc("namesake_table_rows");
+          cx.namesake(&mut rng, &n);
+        }
+        continue;
+      }
+      for loc in 0..NAMESAKE_LOCS {
+        for scope in 0..NAMESAKE_SCOPES {
+          for signer in 0..2u8 {
+            k += 1;
+            if !args.mine(k) {
+              continue;
+            }
+            let n = Namesake { pair, place, loc_f: loc, loc_g: loc, scope, ident: (k % 4) as u8, signer, entry: ((k / 4) % 2) as u8 };
+            cx.rep.inc("namesake_table_rows");
+            cx.namesake(&mut rng, &n);
+          }
+        }
       }
     }
   }
